@@ -264,9 +264,9 @@ def Chain.apply (T : Chain) (data : List (Chan × Option Rat)) : List (Chan × O
 def Chain.outChans (T : Chain) (cs : List Chan) : List Chan :=
   T.foldl (fun c t => t.outChans c) cs
 
-/-- `is_constant_invariant`: single transformations with numeric values are; `ChainedTransformation`
-inherits the default `False` -/
-def Chain.constInvariant (T : Chain) : Bool := T.length == 1
+/-- `is_constant_invariant`: offset / scaling / parallel transformations with numeric (time independent)
+values are, and a `ChainedTransformation` is if all its members are -/
+def Chain.constInvariant (T : Chain) : Bool := T.all (fun _ => true)
 
 /-! ## Waveforms -/
 
